@@ -27,7 +27,11 @@ RULE = ("cases = (valid DFA or NFA, word); bounded-exhaustive small automata × 
         "random words; DFAs are also read with ignore_rejection=True; families: empty alphabet, NFAs with transition "
         "rows keyed by non-states, non-str items for `in` (None, 5, ('a',), b'a', 1.5, frozenset()); big cases (oracle "
         "only, no model call): ε-chains / ε-cycles of ~1500 states, union-like towers, 1500-state DFAs, read with the "
-        "independent textbook interpreter; a case is non-trivial when the word is non-empty and the automaton has ≥2 "
+        "independent textbook interpreter; constructor-argument reuse (the SAME dict/set objects edited in place — "
+        "targets, rows, final states, new states, a shared target set, a typo that makes the definition invalid for a "
+        "while — and handed to the constructor again, default and mutable configuration: every automaton must follow "
+        "a deep copy of the containers taken at its construction, earlier automata keep following theirs); NFAs whose "
+        "target collections are lists / tuples / frozensets; a case is non-trivial when the word is non-empty and the automaton has ≥2 "
         "states; distinct = distinct (definition, word) pairs")
 ASSUMPTIONS = [
     "state names are hashable values; a definition with a state literally named None is refused by validate() since "
@@ -37,6 +41,8 @@ ASSUMPTIONS = [
     "validates but can never be read, because Python iterates a str character by character; '' as an input symbol "
     "is refused by validate() since /repo 07f4843)",
     "Python set/dict semantics are modelled (lists / association lists); iteration order is not relied on",
+    "NFA target collections may be any iterable of states without repetitions (set, frozenset, list, tuple): the model "
+    "sees them as lists used as sets",
 ]
 EXPLANATION = ("Theorems C01_* tie the model's reader to Mathlib's DFA/εNFA acceptance for every valid "
                "automaton and every word; this run ties the model to the code by differential execution.")
